@@ -122,11 +122,13 @@ Section GLM.
     let* wr := working_residuals y mu dmu var w in
     Some (map (dbeta_cell x wr n p) (seq 0 p)).
 
-  (** [weights * dmu * dmu / var] *)
+  (** [(weights * dmu) * (dmu / var)]: the quotient first, as in the working residuals (repaired code:
+      [dmu * dmu] overflowed for a log-link mean above ~1e154 and the infinite information matrix turned
+      the Newton step into 0, which the stopping rule took for convergence at the starting value) *)
   Definition working_weights (dmu var w : list T) : option (list T) :=
-    let* d2 := vbin (mul O) dmu dmu in
-    let* wd := vbin (mul O) w d2 in
-    vbin (div O) wd var.
+    let* wd := vbin (mul O) w dmu in
+    let* q := vbin (div O) dmu var in
+    vbin (mul O) wd q.
 
   (** [weighted_x[i_n*p + i_p] *= working_weights[i_n]] *)
   Definition weighted_x (x ww : list T) (p : nat) : list T :=
